@@ -234,7 +234,7 @@ func main() {
 		spec.ID, *tier, strings.Join(ruleIDs, ","), len(p.Pkgs), len(p.Funcs), p.nInstr, len(all), nDischarged, len(knownPrinted), len(viol), wall)
 
 	cov := map[string]interface{}{
-		"explanation":         "DECIDED (static, on the type-checked source of the working tree): " + spec.Decided + " NOT DECIDED: " + spec.NotDecided,
+		"explanation":         "DECIDED (static, on the type-checked source of the working tree): " + spec.Decided + laterRules(spec) + " NOT DECIDED: " + spec.NotDecided,
 		"obligations":         len(all),
 		"discharged":          nDischarged,
 		"evaluations":         len(all),
@@ -309,4 +309,19 @@ func isFlagSet(name string) bool {
 func fatal(f string, a ...interface{}) {
 	fmt.Fprintf(os.Stderr, "qfcheck: "+f+"\n", a...)
 	os.Exit(2)
+}
+
+// laterRules names the rules of the property that its summary sentence does not mention yet (rules added in
+// later rounds); their full texts are in the evidence's rule list and in DESIGN.md section 3.
+func laterRules(spec *PropSpec) string {
+	var extra []string
+	for _, id := range spec.Rules {
+		if r := rules[id]; r != nil && !strings.Contains(spec.Decided, id) {
+			extra = append(extra, id+" "+r.Name)
+		}
+	}
+	if len(extra) == 0 {
+		return ""
+	}
+	return " Further rules decided for this property (texts in the rule list): " + strings.Join(extra, ", ") + "."
 }
